@@ -601,6 +601,21 @@ def run (ctx):
         fs = q.fact_strs(g, n)
         good = any(f.endswith(':falsy') for f in fs if 'remove_flows' in f or 'remaining' in f)
         ctx.ob('R-ALL', rse, "removal scan stops only when nothing is left to remove", good, "break under empty removal set" if good else "facts %s" % fs, (ftmod, n.ast), 'D7')
+  # the switch hears of each removal once: it subscribes to its table's events where the table is created - a subscription made in a
+  # method that runs again (a controller connection being attached) adds a second listener, and every expiry / delete is announced twice
+  subs = []
+  for c_ in sw.mro():
+    for f_ in c_.methods.values():
+      for cl_ in calls_in(f_.node):
+        if call_name(cl_) in ('addListeners', 'addListener', 'addListenerByName', 'listenTo') and isinstance(cl_.func, ast.Attribute) and norm(cl_.func.value) == 'self.table': subs.append((f_, cl_))
+  ctx.floor('subscription of the switch to its table', len(subs), 1)
+  for f_, cl_ in subs:
+    creates = [st_ for t_, v_, st_, k_ in q.stores_in(f_.node) if norm(t_) == 'self.table' and isinstance(v_, ast.Call)]
+    gs_ = q.cfg_of(f_)
+    good = bool(creates) and gs_.dominates(q.enclosing_stmt_node(gs_, creates[0]), q.enclosing_stmt_node(gs_, cl_))
+    ctx.ob('R-ONCE', f_, "the switch subscribes to its table once, where the table is created (`%s`)" % norm(cl_), good, "after `%s`" % norm(creates[0]) if good else
+           "%s subscribes to the table it did not just create: each time it runs (a controller connection is attached again) another listener is added - every flow that expires or is deleted with the send-flow-removed flag is announced "
+           "once per attachment (and not at all before the first one)" % f_.qual, (swmod, cl_), 'D5')
   # ---- mechanisms this property shares with others: their checks' rules about these functions are obligations here too
   ctx.include('C03', ['matches_with_wildcards', 'is_exact', 'effective_priority'], 'non-strict commands select entries by match subsumption')
 
